@@ -37,9 +37,14 @@ class Refused(Exception):
     pass
 
 
+HANDLER_STYLE = ["onEvent"]     # how recording layers receive events: overriding onEvent | "decorated" (own @EventCallback method) | "inherited" (decorated in a base class)
+
+
 def _rec_class(name):
     """a recording layer class with a fixed name (classes are needed for class-style declaration)"""
     L, Y = _mods()
+    if HANDLER_STYLE[0] != "onEvent":
+        return _rec_class_decorated(name, HANDLER_STYLE[0])
     if name in _CLS_CACHE:
         return _CLS_CACHE[name]
 
@@ -71,6 +76,45 @@ def _rec_class(name):
             return self.NAME in (Rec.CONSUME or ())
     Rec.__name__ = "Rec_" + name
     _CLS_CACHE[name] = Rec
+    return Rec
+
+
+def _rec_class_decorated(name, style):
+    """the documented way to write a layer: @EventCallback methods, in the class itself or inherited from a base class"""
+    L, Y = _mods()
+    key = "%s/%s" % (name, style)
+    if key in _CLS_CACHE:
+        return _CLS_CACHE[key]
+
+    class Iface(L.YowLayerInterface):
+        pass
+
+    class Common(L.YowLayer):
+        NAME = name
+        LOG = None
+        CONSUME = None
+
+        def __init__(self):
+            super(Common, self).__init__()
+            self.interface = Iface(self)
+
+        def send(self, d):
+            type(self).LOG.append(("send", self.NAME, d))
+            self.toLower(d + (self.NAME,))
+
+        def receive(self, d):
+            type(self).LOG.append(("recv", self.NAME, d))
+            self.toUpper(d + (self.NAME,))
+
+    def handler(self, ev):
+        type(self).LOG.append(("event", self.NAME, ev.getName()))
+        return self.NAME in (type(self).CONSUME or ())
+    if style == "inherited":
+        Base = type("Base_" + name, (Common,), {"on_test": L.EventCallback("ev.test")(handler)})
+        Rec = type("Rec_" + name, (Base,), {})
+    else:
+        Rec = type("Rec_" + name, (Common,), {"on_test": L.EventCallback("ev.test")(handler)})
+    _CLS_CACHE[key] = Rec
     return Rec
 
 
@@ -315,7 +359,12 @@ def h_events(ctx, depth, options):
     shape = _choose_shape(ctx, depth, options)
     L, Y = _mods()
     style = ctx.choice("style", ["classes", "implicit"])
-    st, names, log = _build(shape, style, False)
+    # how a layer registers its handlers is independent of the stack's depth: the dimension is explored on the shallow stacks
+    HANDLER_STYLE[0] = ctx.choice("layers_receive_events_by", ["onEvent", "decorated", "inherited"]) if depth <= 2 else "onEvent"
+    try:
+        st, names, log = _build(shape, style, False)
+    finally:
+        HANDLER_STYLE[0] = "onEvent"
     direction = ctx.choice("direction", ["emit", "broadcast"])
     detached = ctx.flag("detached")
     # emitter: -1 = the stack itself (emitEvent enters at the bottom, broadcastEvent at the top), else a plain position
@@ -436,6 +485,29 @@ def h_default_stack(ctx):
     return obs
 
 
+def h_legacy_constants(ctx):
+    """the plain tuples the package exports (yowsup.stacks.YOWSUP_*): the full stack is the five core layers below ONE parallel group of
+    the protocol layers, upper layers first; building it yields that shape"""
+    L, Y = _mods()
+    import yowsup.stacks as S
+    which = ctx.choice("constant", ["YOWSUP_FULL_STACK", "YOWSUP_PROTOCOL_LAYERS_FULL", "YOWSUP_CORE_LAYERS"])
+    full = S.YOWSUP_FULL_STACK
+    core = [c.__name__ for c in S.YOWSUP_CORE_LAYERS]
+    obs = [("core layers, upper first", core == TRANSPORT[::-1])]
+    prot = [c.__name__ for c in S.YOWSUP_PROTOCOL_LAYERS_FULL]
+    obs.append(("all optional modules plus the basic ones (calls listed once)", sorted(set(prot)) == sorted(set(BASIC) | set(OPTIONAL.values())) and len(prot) == len(set(prot))))
+    obs.append(("full stack = one group of protocol layers on top of the core layers", len(full) == 1 + len(S.YOWSUP_CORE_LAYERS) and isinstance(full[0], tuple)
+                and [c.__name__ for c in full[0]] == prot and [c.__name__ for c in full[1:]] == core))
+    if which == "YOWSUP_FULL_STACK":
+        st = Y.YowStack(full)
+        got = []
+        for i in range(len(S.YOWSUP_CORE_LAYERS) + 1):
+            inst = st.getLayer(i)
+            got.append(sorted(type(x).__name__ for x in inst.sublayers) if isinstance(inst, L.YowParallelLayer) else type(inst).__name__)
+        obs.append(("the built stack: core layers bottom-up, then one parallel group with every protocol layer", got == TRANSPORT + [sorted(prot)]))
+    return obs
+
+
 def h_builder(ctx, n_ops):
     L, Y = _mods()
     b = Y.YowStackBuilder()
@@ -526,6 +598,7 @@ def cases(tier):
                 cs.append(dict(name="events[depth=%d,bottom=%d]" % (d, first), fn=_with_first(h_events, first), args=(d, [0, 2]), max_paths=800000, timeout_s=3400, weight=4 ** d, keep_samples=3))
     for d in (1, 2, 3) if q else (1, 2, 3, 4):
         cs.append(dict(name="post-construct[depth=%d]" % d, fn=h_post_construct, args=(d, opts), max_paths=200000, timeout_s=600 if q else 3000, weight=4 ** d, keep_samples=4))
+    cs.append(dict(name="legacy-constants", fn=h_legacy_constants))
     cs.append(dict(name="default-layers", fn=h_default_layers, keep_samples=16))
     cs.append(dict(name="default-stack", fn=h_default_stack, keep_samples=16, max_paths=200))
     cs.append(dict(name="builder[ops<=4]", fn=h_builder, args=(4,), keep_samples=8))
